@@ -428,8 +428,10 @@ def run_property(prop, harnesses, tier, level_text, assumptions, outside, nproc=
 
 def write_evidence(prop, tier, seed, cov, assumptions, wall, violations):
     ev = dict(property_id=prop, tier=tier, seed=seed, level='other', coverage=cov, assumptions=sorted(set(assumptions)), wall_s=round(wall, 2), violations=violations)
-    os.makedirs(os.path.join(VERIF, 'evidence'), exist_ok=True)
-    p = os.path.join(VERIF, 'evidence', prop + '.json')
+    # development runs (a single harness, or another tree than /repo) never touch the committed evidence
+    evdir = os.path.join(VERIF, 'evidence') if (REPO == '/repo' and not os.environ.get('VERIF_DEV')) else os.path.join('/tmp', 'verif_dev_evidence')
+    os.makedirs(evdir, exist_ok=True)
+    p = os.path.join(evdir, prop + '.json')
     try:
         import jsonschema
         jsonschema.validate(ev, json.load(open('/root/.vp/EVIDENCE.schema.json')))
